@@ -491,6 +491,33 @@ def _result_map_err(it, st, args, ctx):
     return _map_enum(it, st, args, ctx, 'Result', 'Err', None)
 
 
+@summary(r'Option::<.*>::map_or::<|Result::<.*>::map_or::<')
+def _enum_map_or(it, st, args, ctx):
+    """map_or(default, f): f(payload) for Some / Ok, the default otherwise"""
+    o = _enum_arg(it, st, args[0])
+    good = 'Some' if o.ty == 'Option' else 'Ok'
+    other = 'None' if o.ty == 'Option' else 'Err'
+    outs = []
+    for s2, n in fork_enum(it, st, o, [good, other]):
+        if n == good:
+            outs.extend(it.call_closure(s2, args[2], [o.payloads[good][0]], ctx))
+        else:
+            outs.append((s2, Ret(args[1])))
+    return outs
+
+
+@summary(r'Option::<.*>::map_or_else::<')
+def _option_map_or_else(it, st, args, ctx):
+    o = _enum_arg(it, st, args[0])
+    outs = []
+    for s2, n in fork_enum(it, st, o, ['Some', 'None']):
+        if n == 'Some':
+            outs.extend(it.call_closure(s2, args[2], [o.payloads['Some'][0]], ctx))
+        else:
+            outs.extend(it.call_closure(s2, args[1], [], ctx))
+    return outs
+
+
 @summary(r'Option::<.*>::unwrap_or_else::<')
 def _option_unwrap_or_else(it, st, args, ctx):
     o = _enum_arg(it, st, args[0])
@@ -567,6 +594,10 @@ def _clone(it, st, args, ctx):
 @summary(r'^<.* as (std::ops::)?Deref(Mut)?>::deref(_mut)?$|^<.* as AsRef<.*>>::as_ref$|^<.* as Borrow<.*>>::borrow$|^Vec::<.*>::as_slice$')
 def _deref(it, st, args, ctx):
     # Vec<T> -> [T], Bytes -> [u8], Cow -> T: all share the representation of the underlying sequence
+    if re.match(r'^<(dashmap::)?(mapref::one::)?(Ref|RefMut)<', ctx.callee) and isinstance(args[0], Ptr):
+        v = it.load(st, args[0])  # a map reference guard is modelled as the pointer to the entry's value
+        if isinstance(v, Ptr):
+            return v
     return args[0]
 
 
@@ -901,7 +932,8 @@ def _mutex_lock(it, st, args, ctx):
     return args[0]
 
 
-@summary(r'^<(parking_lot::)?(lock_api::)?(MutexGuard|RwLockReadGuard|RwLockWriteGuard|MappedMutexGuard)<.*> as (std::ops::)?Deref(Mut)?>::deref(_mut)?$')
+@summary(r'^<(parking_lot::)?(lock_api::)?(MutexGuard|RwLockReadGuard|RwLockWriteGuard|MappedMutexGuard)<.*> as (std::ops::)?Deref(Mut)?>::deref(_mut)?$|'
+         r'^<(dashmap::)?(mapref::one::)?(Ref|RefMut)<.*> as (std::ops::)?Deref(Mut)?>::deref(_mut)?$|^(dashmap::)?(mapref::one::)?(Ref|RefMut)::<.*>::value(_mut)?$')
 def _guard_deref(it, st, args, ctx):
     g = args[0]
     v = it.load(st, g) if isinstance(g, Ptr) else g
